@@ -4,6 +4,7 @@ import NixModel.Lemmas.C16Bytes
 import NixModel.Lemmas.C16Getitem
 import NixModel.Lemmas.C16Unfit
 import NixModel.Lemmas.C16Fx
+import NixModel.Lemmas.C16Block
 import NixModel.Pure.FrameShape
 import NixModel.Generated.FrameShape
 /-!
@@ -710,6 +711,76 @@ theorem C16_rollbacks_restore (f0 : Frame) (hist : List Op) (hc : Created f0) :
 theorem C16_text_roundtrip (s : String) (t : ColType) (v : Val) :
     ensureStr s.toUTF8 = .ok (.str s) ∧ (wellTyped t v = true → convStringCell t (enc v) = .ok v) :=
   ⟨ensureStr_toUTF8 s, convStringCell_enc⟩
+
+-- ---------------------------------------------------------------------------------------
+-- the frames of a block (`Pure/FrameBlock.lean`)
+
+/-- **frames are independent**: an operation on the frame called `name` — any `DataFrame` operation, accepted or
+    refused — leaves every other frame of the block and the set of names as they were, and does to the addressed
+    frame exactly what the single-frame model says -/
+theorem C16_block_frames_independent (b : Blk) (name : String) (g : SFrame → SFrame × Option Err) :
+    (∀ other, other ≠ name → (blkUpdate b name g).1.find other = b.find other) ∧
+    (blkUpdate b name g).1.names = b.names ∧
+    (∀ s, b.find name = some s →
+      (blkUpdate b name g).1.find name = some (g s).1 ∧ (blkUpdate b name g).2 = (g s).2) := by
+  refine ⟨?_, ?_, ?_⟩
+  · intro other h
+    unfold blkUpdate
+    cases hf : b.find name with
+    | none => rfl
+    | some s => exact lookup_replace_ne h b.frames
+  · unfold blkUpdate
+    cases hf : b.find name with
+    | none => rfl
+    | some s => exact replace_names b.frames
+  · intro s hs
+    unfold blkUpdate
+    rw [hs]
+    exact ⟨lookup_replace_self hs, rfl⟩
+
+/-- **creation under a name**: a name that exists is refused with DuplicateName whatever else is wrong with the
+    call, and nothing changes; a creation refused for any other reason leaves no frame behind; an accepted one adds
+    exactly the new frame under its name and leaves every other frame as it was -/
+theorem C16_block_create (b : Blk) (name : String) (made : Except Err SFrame) :
+    (name ∈ b.names → blkCreate b name made = (b, some .duplicateName)) ∧
+    (∀ e, made = .error e → (blkCreate b name made).1 = b ∧ (blkCreate b name made).2 ≠ none) ∧
+    (∀ s, name ∉ b.names → made = .ok s →
+      (blkCreate b name made).2 = none ∧ (blkCreate b name made).1.find name = some s ∧
+      ∀ other, other ≠ name → (blkCreate b name made).1.find other = b.find other) := by
+  refine ⟨fun h => by simp [blkCreate, h], ?_, ?_⟩
+  · intro e he
+    subst he
+    unfold blkCreate
+    split <;> simp
+  · intro s hn hm
+    subst hm
+    have hc : blkCreate b name (.ok s) = (⟨b.frames ++ [(name, s)]⟩, none) := by simp [blkCreate, hn]
+    rw [hc]
+    exact ⟨rfl, lookup_append_new b.frames hn, fun other h => lookup_append_ne (Ne.symm h) b.frames⟩
+
+/-- **a copy is a frame of its own**: `create_data_frame(name, copy_from=frame)` under a free name gives a frame that
+    holds the same table; every other frame is as it was; and whatever is done to the copy afterwards, the source
+    still holds its table (and the other way round) -/
+theorem C16_block_copy (b : Blk) (src name : String) (s : SFrame) (hs : b.find src = some s)
+    (hn : name ∉ b.names) :
+    (blkCopy b src name).2 = none ∧ (blkCopy b src name).1.find name = some s ∧
+    (∀ other, other ≠ name → (blkCopy b src name).1.find other = b.find other) ∧
+    (∀ g, (blkUpdate (blkCopy b src name).1 name g).1.find src = some s) ∧
+    (∀ g, (blkUpdate (blkCopy b src name).1 src g).1.find name = some s) ∧
+    (∀ taken, taken ∈ b.names → blkCopy b src taken = (b, some .duplicateName)) := by
+  have hne : src ≠ name := fun e => hn (e ▸ lookup_mem hs)
+  have hc : blkCopy b src name = (⟨b.frames ++ [(name, s)]⟩, none) := by simp [blkCopy, hs, hn]
+  have h2 : (blkCopy b src name).1.find name = some s := by
+    rw [hc]; exact lookup_append_new b.frames hn
+  have h3 : ∀ other, other ≠ name → (blkCopy b src name).1.find other = b.find other := by
+    intro other h; rw [hc]; exact lookup_append_ne (Ne.symm h) b.frames
+  refine ⟨by rw [hc], h2, h3, ?_, ?_, ?_⟩
+  · intro g
+    rw [(C16_block_frames_independent _ name g).1 src hne, h3 src hne, hs]
+  · intro g
+    rw [(C16_block_frames_independent _ src g).1 name (Ne.symm hne), h2]
+  · intro taken ht
+    simp [blkCopy, hs, ht]
 
 -- ---------------------------------------------------------------------------------------
 -- the shape of the source (regenerated from nixio/data_frame.py and block.py on every run)
